@@ -219,7 +219,7 @@ Proof.
     + (* FromJSON *)
       unfold step, abs_step, from_json, load_array. rewrite Hk, (init_ring c Hk Hc). cbn [is_kv].
       pose proof (rinit_inv (cap_of c) (cap_pos c Hk Hc)) as Hi0.
-      destruct d; cbn [fst snd]; (split; [|auto]); auto.
+      match goal with |- context [match ?d0 with DErr => _ | _ => _ end] => destruct d0 end; cbn [fst snd]; (split; [|auto]); auto.
       * apply R_ring_intro; auto.
       * rewrite ring_enqs_renqs. apply R_ring_intro; auto using renqs_inv.
         -- now rewrite renqs_max.
@@ -293,4 +293,295 @@ Theorem C05_size : forall c, c05_config c -> forall ops,
   size_of c (run c ops) = Z.of_nat (length (abs_run c ops)).
 Proof.
   intros c Hc ops. apply R_size. now apply R_run.
+Qed.
+
+(* ---------- machine-level laws (no abstract run: Values() before vs. after one operation) ---------- *)
+
+Theorem C05_step_values : forall c, c05_config c -> forall ops o,
+  values_of c (run c (ops ++ [o])) = fst (abs_step c (values_of c (run c ops)) o) /\
+  (c05_specified o = true ->
+   snd (fst (step c (run c ops) o)) = snd (abs_step c (values_of c (run c ops)) o)).
+Proof.
+  intros c Hc ops o. rewrite run_snoc, (C05_refines c Hc ops). now apply C05_step.
+Qed.
+
+Lemma stack_config : forall c, is_stack (ckind c) = true -> c05_config c.
+Proof.
+  intros c H. unfold c05_config. destruct (ckind c); try discriminate; exact I.
+Qed.
+
+Theorem C05_push : forall c, is_stack (ckind c) = true -> forall ops v,
+  values_of c (run c (ops ++ [Push v])) = v :: values_of c (run c ops).
+Proof.
+  intros c Hk ops v. destruct (C05_step_values c (stack_config c Hk) ops (Push v)) as (H & _).
+  rewrite H. cbn [abs_step]. now rewrite Hk.
+Qed.
+
+Theorem C05_pop : forall c, is_stack (ckind c) = true -> forall ops,
+  snd (fst (step c (run c ops) Pop)) = oopt (hd_error (values_of c (run c ops))) /\
+  values_of c (run c (ops ++ [Pop])) = tl (values_of c (run c ops)).
+Proof.
+  intros c Hk ops. destruct (C05_step_values c (stack_config c Hk) ops Pop) as (H1 & H2).
+  rewrite H1, (H2 eq_refl). cbn [abs_step]. rewrite Hk. split; reflexivity.
+Qed.
+
+Theorem C05_enqueue : forall c, ckind c = ArrayQueue \/ ckind c = LinkedListQueue -> forall ops v,
+  values_of c (run c (ops ++ [Enqueue v])) = values_of c (run c ops) ++ [v].
+Proof.
+  intros c Hk ops v.
+  assert (Hc : c05_config c) by (unfold c05_config; destruct Hk as [-> | ->]; exact I).
+  destruct (C05_step_values c Hc ops (Enqueue v)) as (H & _).
+  rewrite H. cbn [abs_step]. unfold abs_enqueue. destruct Hk as [-> | ->]; reflexivity.
+Qed.
+
+Theorem C05_ring_enqueue : forall c, ckind c = CircularBuffer -> (1 <= ccap c)%Z -> forall ops v,
+  values_of c (run c (ops ++ [Enqueue v])) = lastn (cap_of c) (values_of c (run c ops) ++ [v]).
+Proof.
+  intros c Hk Hcap ops v.
+  assert (Hc : c05_config c) by (unfold c05_config; now rewrite Hk).
+  destruct (C05_step_values c Hc ops (Enqueue v)) as (H & _).
+  rewrite H. cbn [abs_step]. unfold abs_enqueue. now rewrite Hk.
+Qed.
+
+Theorem C05_dequeue : forall c, c05_config c -> is_queue (ckind c) = true -> forall ops,
+  snd (fst (step c (run c ops) Dequeue)) = oopt (hd_error (values_of c (run c ops))) /\
+  values_of c (run c (ops ++ [Dequeue])) = tl (values_of c (run c ops)).
+Proof.
+  intros c Hc Hk ops. destruct (C05_step_values c Hc ops Dequeue) as (H1 & H2).
+  rewrite H1, (H2 eq_refl). cbn [abs_step]. rewrite Hk. split; reflexivity.
+Qed.
+
+Theorem C05_clear : forall c, c05_config c -> forall ops, values_of c (run c (ops ++ [Clear])) = [].
+Proof.
+  intros c Hc ops. destruct (C05_step_values c Hc ops Clear) as (H & _). now rewrite H.
+Qed.
+
+(* ---------- the ring: bounded, Full() <-> Size() = capacity, eviction of exactly the oldest ---------- *)
+
+Lemma ring_config : forall c, ckind c = CircularBuffer -> (1 <= ccap c)%Z -> c05_config c.
+Proof.
+  intros c Hk Hcap. unfold c05_config. now rewrite Hk.
+Qed.
+
+Lemma ring_run : forall c, ckind c = CircularBuffer -> (1 <= ccap c)%Z -> forall ops,
+  exists r, run c ops = StRing r /\ ring_inv r /\ rmax r = cap_of c /\ rvalues r = abs_run c ops.
+Proof.
+  intros c Hk Hcap ops. pose proof (R_run c (ring_config c Hk Hcap) ops) as H.
+  unfold R in H. now rewrite Hk in H.
+Qed.
+
+Theorem C05_bounded : forall c, ckind c = CircularBuffer -> (1 <= ccap c)%Z -> forall ops,
+  length (abs_run c ops) <= cap_of c.
+Proof.
+  intros c Hk Hcap ops. destruct (ring_run c Hk Hcap ops) as (r & _ & Hi & Hm & <-).
+  rewrite <- Hm. now apply rvalues_bounded.
+Qed.
+
+Theorem C05_full : forall c, ckind c = CircularBuffer -> (1 <= ccap c)%Z -> forall ops,
+  exists r, run c ops = StRing r /\
+    rfullb r = (length (abs_run c ops) =? cap_of c) /\
+    rfullb r = (size_of c (run c ops) =? ccap c)%Z /\
+    In (TFull, obool (rfullb r)) (observe c 1 (run c ops)).
+Proof.
+  intros c Hk Hcap ops. destruct (ring_run c Hk Hcap ops) as (r & Hr & Hi & Hm & Hq).
+  exists r. split; [exact Hr|]. rewrite Hr. split; [|split].
+  - rewrite <- Hq, <- Hm. now apply rfull_abs.
+  - unfold rfullb, size_of. rewrite Hm. unfold cap_of.
+    destruct (Nat.eqb_spec (rsize r) (Z.to_nat (ccap c))) as [E|N];
+      destruct (Z.eqb_spec (Z.of_nat (rsize r)) (ccap c)) as [E'|N']; auto; lia.
+  - unfold observe. rewrite Hk. cbn [Z.leb Z.compare is_kv andb app].
+    right. right. right. right. left. reflexivity.
+Qed.
+
+(* the observation vector has exactly one Full() entry, and it says "Size() = capacity" *)
+Theorem C05_full_observed : forall c, ckind c = CircularBuffer -> (1 <= ccap c)%Z -> forall ops o,
+  In (TFull, o) (observe c 1 (run c ops)) <-> o = obool (abs_full c (abs_run c ops)).
+Proof.
+  intros c Hk Hcap ops o. destruct (C05_full c Hk Hcap ops) as (r & Hr & Hf & _ & Hin).
+  unfold abs_full. rewrite <- Hf. split.
+  - intros H. rewrite Hr in H. unfold observe in H. rewrite Hk in H.
+    cbn [Z.leb Z.compare is_kv andb app each_of each_back] in H.
+    repeat (destruct H as [H|H]; [try discriminate H|]).
+    + now inversion H.
+    + destruct H.
+  - intros ->. exact Hin.
+Qed.
+
+Theorem C05_values_bounded : forall c, ckind c = CircularBuffer -> (1 <= ccap c)%Z -> forall ops,
+  length (values_of c (run c ops)) <= cap_of c.
+Proof.
+  intros c Hk Hcap ops. rewrite (C05_refines c (ring_config c Hk Hcap)). now apply C05_bounded.
+Qed.
+
+(* enqueuing into a full buffer discards exactly the oldest element ... *)
+Theorem C05_evicts : forall c, ckind c = CircularBuffer -> (1 <= ccap c)%Z -> forall ops y q x,
+  values_of c (run c ops) = y :: q -> length (y :: q) = cap_of c ->
+  values_of c (run c (ops ++ [Enqueue x])) = q ++ [x].
+Proof.
+  intros c Hk Hcap ops y q x Hv Hl. rewrite (C05_ring_enqueue c Hk Hcap), Hv.
+  now apply lastn_full_snoc.
+Qed.
+
+(* ... and into a buffer with room discards nothing *)
+Theorem C05_room : forall c, ckind c = CircularBuffer -> (1 <= ccap c)%Z -> forall ops x,
+  length (values_of c (run c ops)) < cap_of c ->
+  values_of c (run c (ops ++ [Enqueue x])) = values_of c (run c ops) ++ [x].
+Proof.
+  intros c Hk Hcap ops x Hl. rewrite (C05_ring_enqueue c Hk Hcap). now apply lastn_room_snoc.
+Qed.
+
+Theorem C05_evicts_abs : forall c, ckind c = CircularBuffer -> (1 <= ccap c)%Z -> forall ops y q x,
+  abs_run c ops = y :: q -> length (y :: q) = cap_of c ->
+  abs_run c (ops ++ [Enqueue x]) = q ++ [x].
+Proof.
+  intros c Hk Hcap ops y q x Hv Hl. pose proof (ring_config c Hk Hcap) as Hc.
+  rewrite <- !(C05_refines c Hc) in *. now apply (C05_evicts c Hk Hcap ops y q x).
+Qed.
+
+(* ---------- the empty container ---------- *)
+
+Lemma remove_op_abs : forall c q, c05_config c -> abs_step c q (remove_op c) = abs_remove q.
+Proof.
+  intros c q Hc. unfold remove_op, c05_config, abs_step in *.
+  destruct (ckind c) eqn:Hk; try contradiction; reflexivity.
+Qed.
+
+Lemma R_empty_remove : forall c s, c05_config c -> R c s [] -> step c s (remove_op c) = (s, OL [], onone).
+Proof.
+  intros c s Hc HR. unfold R in HR. unfold remove_op. destruct (ckind c) eqn:Hk; try contradiction;
+    try (subst s; unfold step; rewrite Hk; reflexivity).
+  destruct HR as (r & -> & Hi & _ & Hq). cbn [is_stack]. unfold step. rewrite Hk.
+  pose proof (rdeq_abs r Hi) as Hd. rewrite Hq in Hd. now rewrite Hd.
+Qed.
+
+(* Pop / Dequeue / Peek on an empty container: (zero, false), and the container is untouched *)
+Theorem C05_empty_pop : forall c, c05_config c -> forall ops,
+  values_of c (run c ops) = [] ->
+  step c (run c ops) (remove_op c) = (run c ops, OL [], onone) /\
+  peek_of c (run c ops) = OL [] /\
+  size_of c (run c ops) = 0%Z /\
+  values_of c (run c (ops ++ [remove_op c])) = [].
+Proof.
+  intros c Hc ops Hv. pose proof (R_run c Hc ops) as HR.
+  rewrite (C05_refines c Hc) in Hv.
+  assert (Hs : step c (run c ops) (remove_op c) = (run c ops, OL [], onone)).
+  { apply R_empty_remove; [assumption|]. now rewrite <- Hv. }
+  split; [exact Hs|]. split; [|split].
+  - rewrite (C05_peek c Hc), Hv. reflexivity.
+  - rewrite (C05_size c Hc), Hv. reflexivity.
+  - rewrite run_snoc, Hs. cbn [fst]. now rewrite (C05_refines c Hc).
+Qed.
+
+(* ---------- Values() lists the elements in the order they would be removed ---------- *)
+
+Lemma tl_skipn : forall (A : Type) n (l : list A), tl (skipn n l) = skipn (S n) l.
+Proof.
+  intros A n. induction n as [|n IH]; intros [|a l]; cbn [skipn tl]; auto.
+  rewrite IH. reflexivity.
+Qed.
+
+Lemma hd_skipn : forall (A : Type) n (l : list A), hd_error (skipn n l) = nth_error l n.
+Proof.
+  intros A n. induction n as [|n IH]; intros [|a l]; cbn [skipn hd_error nth_error]; auto.
+Qed.
+
+Lemma abs_run_removes : forall c, c05_config c -> forall ops n,
+  abs_run c (ops ++ repeat (remove_op c) n) = skipn n (abs_run c ops).
+Proof.
+  intros c Hc ops. induction n as [|n IH].
+  - cbn [repeat]. now rewrite app_nil_r.
+  - cbn [repeat]. rewrite repeat_cons, app_assoc, abs_run_snoc, IH, remove_op_abs by assumption.
+    apply tl_skipn.
+Qed.
+
+(* removing repeatedly returns Values()[0], Values()[1], ... and then (zero, false) for ever *)
+Theorem C05_removal_order : forall c, c05_config c -> forall ops n,
+  snd (fst (step c (run c (ops ++ repeat (remove_op c) n)) (remove_op c))) =
+  oopt (nth_error (values_of c (run c ops)) n).
+Proof.
+  intros c Hc ops n.
+  destruct (C05_step c Hc (ops ++ repeat (remove_op c) n) (remove_op c)) as (_ & H).
+  rewrite H by (unfold remove_op; now destruct (is_stack (ckind c))).
+  rewrite remove_op_abs, abs_run_removes, (C05_refines c Hc) by assumption.
+  cbn [abs_remove snd]. now rewrite hd_skipn.
+Qed.
+
+(* ---------- history view of the three queues ---------- *)
+
+Lemma enq_history_snoc : forall c ops o,
+  enq_history c (ops ++ [o]) =
+  match o with
+  | Enqueue v => enq_history c ops ++ [v]
+  | Clear => []
+  | FromJSON (DArr vs) => vs
+  | FromJSON DNull => []
+  | _ => enq_history c ops
+  end.
+Proof.
+  intros c ops o. unfold enq_history. now rewrite fold_left_app.
+Qed.
+
+Lemma lastn_suffix : forall (A : Type) n (l : list A), exists p, l = p ++ lastn n l.
+Proof.
+  intros A n l. exists (firstn (length l - n) l). unfold lastn. now rewrite firstn_skipn.
+Qed.
+
+(* the content of a queue is what is left of the values that entered it since the last
+   Clear / FromJSON after a prefix (the dequeued and, for the ring, the evicted ones) has gone;
+   the ring never holds more than its capacity *)
+Theorem C05_history : forall c, c05_config c -> is_queue (ckind c) = true -> forall ops,
+  exists gone, enq_history c ops = gone ++ values_of c (run c ops).
+Proof.
+  intros c Hc Hk ops. rewrite (C05_refines c Hc).
+  induction ops as [|o ops IH] using rev_ind; [exists []; reflexivity|].
+  destruct IH as (g & IH). rewrite abs_run_snoc, enq_history_snoc.
+  assert (Hs : is_stack (ckind c) = false) by (destruct (ckind c); try discriminate; reflexivity).
+  destruct o; cbn [abs_step fst]; rewrite ?Hk, ?Hs; cbn [fst]; try (exists g; exact IH).
+  - (* Enqueue *)
+    unfold abs_enqueue. destruct (ckind c); try discriminate.
+    + exists g. now rewrite IH, app_assoc.
+    + exists g. now rewrite IH, app_assoc.
+    + match goal with |- context [lastn ?n ?l] => destruct (lastn_suffix Z n l) as (p & Hp) end.
+      exists (g ++ p). rewrite IH, <- !app_assoc. f_equal. exact Hp.
+  - (* Dequeue *)
+    unfold abs_remove. cbn [fst]. destruct (abs_run c ops) as [|y q'].
+    + exists g. exact IH.
+    + exists (g ++ [y]). now rewrite IH, <- app_assoc.
+  - (* Clear *) exists []. reflexivity.
+  - (* FromJSON *)
+    match goal with |- context [match ?d0 with DErr => _ | _ => _ end] => destruct d0 end; cbn [fst]; try (exists g; exact IH); try (exists []; reflexivity).
+    unfold abs_load. destruct (ckind c); try discriminate; try (exists []; reflexivity).
+    apply lastn_suffix.
+Qed.
+
+Lemma lastn_app_exact : forall (A : Type) (g q : list A), lastn (length q) (g ++ q) = q.
+Proof.
+  intros A g q. unfold lastn. rewrite app_length.
+  replace (length g + length q - length q) with (length g) by lia.
+  rewrite skipn_app, skipn_all, Nat.sub_diag. reflexivity.
+Qed.
+
+(* a queue holds exactly the last Size() values that entered it *)
+Theorem C05_history_last : forall c, c05_config c -> is_queue (ckind c) = true -> forall ops,
+  values_of c (run c ops) = lastn (Z.to_nat (size_of c (run c ops))) (enq_history c ops).
+Proof.
+  intros c Hc Hk ops. destruct (C05_history c Hc Hk ops) as (g & Hg).
+  rewrite Hg, (C05_size c Hc), Nat2Z.id, <- (C05_refines c Hc). symmetry. apply lastn_app_exact.
+Qed.
+
+(* while nothing is dequeued, the buffer holds the last c values that entered it *)
+Theorem C05_ring_last_c : forall c, ckind c = CircularBuffer -> (1 <= ccap c)%Z -> forall ops,
+  no_dequeue ops = true ->
+  values_of c (run c ops) = lastn (cap_of c) (enq_history c ops).
+Proof.
+  intros c Hk Hcap ops. pose proof (ring_config c Hk Hcap) as Hc. rewrite (C05_refines c Hc).
+  induction ops as [|o ops IH] using rev_ind; intros Hn; [now rewrite lastn_nil|].
+  unfold no_dequeue in *. rewrite forallb_app in Hn. apply andb_true_iff in Hn. destruct Hn as (Hn & Ho).
+  specialize (IH Hn). rewrite abs_run_snoc, enq_history_snoc.
+  destruct o; cbn [abs_step fst]; rewrite ?Hk; cbn [is_stack is_queue fst]; try exact IH.
+  - unfold abs_enqueue. rewrite Hk, IH. apply lastn_lastn_app.
+  - discriminate Ho.
+  - now rewrite lastn_nil.
+  - match goal with |- context [match ?d0 with DErr => _ | _ => _ end] => destruct d0 end; cbn [fst]; try exact IH; try now rewrite lastn_nil.
+    unfold abs_load. now rewrite Hk.
 Qed.
